@@ -316,12 +316,19 @@ def _index(L, x):
     return -1
 
 
-def gen_ops(U, full):
+def gen_ops(U, alphabet, only=None):
     """All operations that are within the preconditions of the quantifier in the current state.
 
     Streams that are completely free (no source, no sink, in no list) are interchangeable in the
     current state, so only the lowest-numbered free streams are used as operands (sound symmetry
-    reduction: the code never looks at stream names)."""
+    reduction: the code never looks at stream names).
+
+    `only` restricts the generation to one family (used by the random walks, which first draw a family and a target):
+    ('list', list index, 'set'|'slice'|'grow'|'shrink'), ('stream',), ('conn',), ('unit', unit index, 'pair'|'disc'|
+    'replace'|'insert')."""
+    alpha = {'mini': 0, 'core': 1, 'full': 2, False: 1, True: 2}[alphabet]
+    full = alpha == 2       # everything below
+    mini = alpha == 0       # no thin wrappers (replace, pipes, extend, reverse, reconnect), single-stream slices only
     ops = []
     add = ops.append
     seqs = U.seqs
@@ -344,9 +351,6 @@ def gen_ops(U, full):
             if isinstance(e, MISS):
                 holders.append((q, e)); break
 
-    def side_of(q, targets, entering):
-        return {'ins': (targets, entering)} if q.side == 'ins' else {'outs': (targets, entering)}
-
     def mk(kind, label, fn, q, targets, entering, eff, refusals=()):
         t = set(targets)
         if q.side == 'ins':
@@ -354,11 +358,15 @@ def gen_ops(U, full):
         else:
             add(Op(kind, label, fn, ins=None, outs=(t, entering), eff=eff, refusals=refusals))
 
+    sub = only[2] if only is not None and len(only) > 2 else None
+    w_set = sub in (None, 'set'); w_slice = sub in (None, 'slice'); w_grow = sub in (None, 'grow')
+    w_shrink = sub in (None, 'shrink')
     for q in seqs:
         seq = q.seq
         L = seq._streams
         n = len(L)
         li = q.li
+        if only is not None and (only[0] != 'list' or only[1] != li): continue
         tag = q.tag
         other_side_attr = '_sink' if q.side == 'ins' else '_source'
         # ------------------------------------------------------------ item assignment  L[i] = x
@@ -371,10 +379,10 @@ def gen_ops(U, full):
         for q2, e in holders:                     # placeholders of other lists ("operating on placeholder streams")
             if q2 is not q and not _has(L, e) and not _has(xs, e):
                 if not full:                      # core alphabet: one from the same side, one from the other side
-                    if q2.side in got: continue
+                    if q2.side in got or (mini and got): continue
                     got.add(q2.side)
                 xs.append(e)
-        for i in idxs:
+        for i in (idxs if w_set else ()):
             for x in xs:
                 add_set = (lambda seq=seq, i=i, x=x: seq.__setitem__(i, x))
                 mk(f'setitem[{tag}]', f'{q.name}[{i}]={nm(x)}', add_set, q, [li], [x] if x is not None else [],
@@ -386,10 +394,10 @@ def gen_ops(U, full):
                    (lambda seq=seq, i=i, x=x: seq.__setitem__(i, x)), q, [li], [x], ('set', li, i, x))
         # pipe notation and port objects: the same transition through other entry points
         pidx = idxs if full else idxs[:1]
-        for i in pidx:
+        xr = [x for x in xs if isinstance(x, REAL)]
+        for i in (pidx if w_set and not mini else ()):
             if i < 0: continue
-            for x in xs:
-                if not isinstance(x, REAL): continue
+            for x in (xr if full else xr[:1]):
                 if q.side == 'ins':
                     f = (lambda x=x, i=i, u=q.unit: (x - i) - u)
                     g = (lambda x=x, i=i, u=q.unit: (x ** i) ** u)
@@ -401,7 +409,7 @@ def gen_ops(U, full):
                 mk(f'pipe stream-index-unit[{tag}]', lab, f, q, [li], [x], ('set', li, i, x))
                 if full:
                     mk(f'pipe stream-index-unit[{tag}]', lab.replace('-', '**'), g, q, [li], [x], ('set', li, i, x))
-        if full:
+        if full and w_set:
             for i in idxs:
                 if i < 0 or i >= n: continue
                 for x in xs:
@@ -414,13 +422,13 @@ def gen_ops(U, full):
         # ------------------------------------------------------------ slice assignment
         slices = [(None, None)]
         if full: slices += [(0, 1), (1, None), (None, 1)]
-        for a, b in slices:
+        for a, b in (slices if w_slice else ()):
             sl = slice(a, b)
             inside = L[sl]
             outside = [e for e in L if not _has(inside, e)]
             base = [s for s in (c2 if full else c1) if not _has(outside, s)] + [None]
             tuples = [()] + [(x,) for x in base]
-            pool = base if full else base[:3]
+            pool = base if full else (() if mini else base[:3])
             for x in pool:
                 for y in pool:
                     if x is y and x is not None: continue
@@ -436,7 +444,8 @@ def gen_ops(U, full):
                 mk(f'setslice[{tag}]', lab, (lambda seq=seq, sl=sl, t=t: seq.__setitem__(sl, t)), q, [li],
                    [x for x in t if x is not None], ('slc', li, sl, t))
         # stream - unit, unit - stream, (streams) - unit
-        for t in ([(x,) for x in c1] + ([(x, y) for x in c2[:3] for y in c2[:3] if x is not y] if full else [])):
+        for t in (([(x,) for x in (c1 if full else c1[:2])] + ([(x, y) for x in c2[:3] for y in c2[:3] if x is not y] if full else []))
+                  if w_slice and not mini else ()):
             if q.fixed and len(t) > q.size: continue
             if q.side == 'ins':
                 f = (lambda t=t, u=q.unit: (t[0] if len(t) == 1 else t) - u)
@@ -448,38 +457,41 @@ def gen_ops(U, full):
         # ------------------------------------------------------------ append / insert / extend
         fr = [s for s in c2 if getattr(s, other_side_attr) is None and not _has(L, s)]   # not docked on that side
         refuse = (RuntimeError,) if q.fixed else ()
-        for x in fr[:2] if q.fixed else fr:
+        for x in ((fr[:2] if q.fixed else fr) if w_grow else ()):
             mk(f'append[{tag}]', f'{q.name}.append({nm(x)})', (lambda seq=seq, x=x: seq.append(x)), q, [li], [x],
                ('ins', li, n, [x]), refuse)
             for i in (range(n + 1) if (full and not q.fixed) else (0,)):
                 mk(f'insert[{tag}]', f'{q.name}.insert({i},{nm(x)})', (lambda seq=seq, i=i, x=x: seq.insert(i, x)), q,
                    [li], [x], ('ins', li, i, [x]), refuse)
         ext = [()] + [(x,) for x in fr[:1]] + [(x, y) for x in fr[:2] for y in fr[:2] if x is not y]
-        for t in ext if not q.fixed else ext[:2]:
+        for t in ((ext if not q.fixed else ext[:2]) if w_grow and not mini else ()):
             mk(f'extend[{tag}]', f'{q.name}.extend((' + ','.join(nm(x) for x in t) + '))',
                (lambda seq=seq, t=t: seq.extend(t)), q, [li], list(t), ('ins', li, n, list(t)), refuse)
         # ------------------------------------------------------------ pop / remove / replace / clear / empty / reverse
-        for i in range(n):
+        for i in range(n if w_shrink else 0):
             mk(f'pop[{tag}]', f'{q.name}.pop({i})', (lambda seq=seq, i=i: seq.pop(i)), q, [li], [], ('pop', li, i))
-        if full and n > 1:
+        if full and n > 1 and w_shrink:
             mk(f'pop[{tag}]', f'{q.name}.pop(-1)', (lambda seq=seq: seq.pop(-1)), q, [li], [], ('pop', li, n - 1))
         for i, e in enumerate(L):
             if isinstance(e, MISS) and not full and any(isinstance(p, MISS) for p in L[:i]):
                 continue                                   # quick: one placeholder per list is enough
-            mk(f'remove[{tag}]', f'{q.name}.remove({nm(e)})', (lambda seq=seq, e=e: seq.remove(e)), q, [li], [],
-               ('rem', li, e))
-            for y in xs:
-                if y is None: continue
+            if w_shrink:
+                mk(f'remove[{tag}]', f'{q.name}.remove({nm(e)})', (lambda seq=seq, e=e: seq.remove(e)), q, [li], [],
+                   ('rem', li, e))
+            ys = [y for y in xs if y is not None]
+            if not full: ys = xr[:1] + [y for y in ys if isinstance(y, MISS)][:1]
+            for y in (ys if w_set and not mini else ()):
                 mk(f'replace[{tag}]', f'{q.name}.replace({nm(e)},{nm(y)})',
                    (lambda seq=seq, e=e, y=y: seq.replace(e, y)), q, [li], [y], ('set', li, i, y))
-        mk(f'clear[{tag}]', f'{q.name}.clear()', seq.clear, q, [li], [], ('clr', li))
-        mk(f'empty[{tag}]', f'{q.name}.empty()', seq.empty, q, [li], [], ('emp', li))
-        mk(f'reverse[{tag}]', f'{q.name}.reverse()', seq.reverse, q, [li], [], ('rev', li))
+        if w_shrink:
+            mk(f'clear[{tag}]', f'{q.name}.clear()', seq.clear, q, [li], [], ('clr', li))
+            mk(f'empty[{tag}]', f'{q.name}.empty()', seq.empty, q, [li], [], ('emp', li))
+            if not mini: mk(f'reverse[{tag}]', f'{q.name}.reverse()', seq.reverse, q, [li], [], ('rev', li))
 
     # ---------------------------------------------------------------- stream.disconnect_*
     cand = list(docked)
     for q, e in holders: cand.append(e)
-    for s in cand + free[:1]:
+    for s in ((cand + free[:1]) if only is None or only[0] == 'stream' else ()):
         src = s._source; snk = s._sink
         qi = U.ins_of.get(id(snk)) if snk is not None else None
         qo = U.outs_of.get(id(src)) if src is not None else None
@@ -491,7 +503,7 @@ def gen_ops(U, full):
                ins=({qi.li} if qi else set(), []), outs=({qo.li} if qo else set(), []), eff=('disc', s, qi, qo)))
 
     # ---------------------------------------------------------------- Connection.reconnect (connection recorded after construction)
-    for s, conn in zip(U.known, U.init_connections):
+    for s, conn in (zip(U.known, U.init_connections) if (only is None and not mini) or (only and only[0] == 'conn') else ()):
         ok = True
         ti = set(); to = set()
         if conn.source is not None:
@@ -519,11 +531,14 @@ def gen_ops(U, full):
 
     # ---------------------------------------------------------------- unit level
     units = U.units
-    for a in units:
+    w_pair = sub in (None, 'pair'); w_disc = sub in (None, 'disc'); w_repl = sub in (None, 'replace')
+    w_ins = sub in (None, 'insert')
+    for ai, a in enumerate(units):
+        if only is not None and (only[0] != 'unit' or only[1] != ai): continue
         qa_i = U.ins_of[id(a)]; qa_o = U.outs_of[id(a)]
         an = U.un(a)
         a_ins = list(qa_i.seq._streams); a_outs = list(qa_o.seq._streams)
-        for b in units:
+        for b in (units if w_pair else ()):
             qb_i = U.ins_of[id(b)]; qb_o = U.outs_of[id(b)]
             bn = U.un(b)
             b_ins = list(qb_i.seq._streams); b_outs = list(qb_o.seq._streams)
@@ -539,17 +554,16 @@ def gen_ops(U, full):
                 add(Op('unit.replace_with(other)', f'{bn}.replace_with({an})', (lambda a=a, b=b: b.replace_with(a)),
                        ins=({qa_i.li}, b_ins), outs=({qa_o.li}, b_outs), eff=('tpo', qa_i.li, qa_o.li, b_ins, b_outs)))
         # a.disconnect(...)
-        all_i = {q.li for q in seqs if q.side == 'ins'}
-        all_o = {q.li for q in seqs if q.side == 'outs'}
-        add(Op('unit.disconnect', f'{an}.disconnect()', a.disconnect, ins=({qa_i.li}, []), outs=({qa_o.li}, []),
-               eff=('udisc', qa_i.li, qa_o.li)))
+        if w_disc:
+            add(Op('unit.disconnect', f'{an}.disconnect()', a.disconnect, ins=({qa_i.li}, []), outs=({qa_o.li}, []),
+                   eff=('udisc', qa_i.li, qa_o.li)))
         real_i = [e for e in a_ins if e]; real_o = [e for e in a_outs if e]
-        if len(real_i) == len(real_o):
+        if w_disc and len(real_i) == len(real_o):
             tg = {qa_i.li} | {U.ins_of[id(o._sink)].li for o in real_o if o._sink is not None}
             add(Op('unit.disconnect(join_ends)', f'{an}.disconnect(join_ends=True)',
                    (lambda a=a: a.disconnect(join_ends=True)), ins=(tg, list(real_i)), outs=({qa_o.li}, []),
                    eff=('udisc', qa_i.li, qa_o.li)))
-        if full:
+        if full and w_disc:
             for i in range(len(a_ins)):
                 for o in range(len(a_outs)):
                     add(Op('unit.disconnect(inlets,outlets by index)', f'{an}.disconnect(inlets=[{i}],outlets=[{o}])',
@@ -561,7 +575,7 @@ def gen_ops(U, full):
                                (lambda a=a, x=a_ins[i], y=a_outs[o]: a.disconnect(inlets=[x], outlets=[y])),
                                ins=({qa_i.li}, []), outs=({qa_o.li}, []), eff=None))
         # a.replace_with(None): join every inlet with the outlet of the same index, then empty both lists
-        if not any(e._source is a for e in a_ins) and not any(e._sink is a for e in a_outs):
+        if w_repl and not any(e._source is a for e in a_ins) and not any(e._sink is a for e in a_outs):
             ti = {qa_i.li}; to = {qa_o.li}
             for e in a_ins:
                 if e._source is not None and id(e._source) in U.outs_of: to.add(U.outs_of[id(e._source)].li)
@@ -570,7 +584,7 @@ def gen_ops(U, full):
             add(Op('unit.replace_with(None)', f'{an}.replace_with()', a.replace_with,
                    ins=(ti, list(a_ins)), outs=(to, list(a_outs)), eff=None))
         # a.insert(stream): insert the unit into the line source -> stream -> sink
-        for s in docked:
+        for s in (docked if w_ins else ()):
             src = s._source; snk = s._sink
             if src is None or snk is None or src is a or snk is a: continue
             qsi = U.ins_of[id(snk)]; qso = U.outs_of[id(src)]
@@ -579,7 +593,9 @@ def gen_ops(U, full):
             if any(_has(qsi.seq._streams, e) or _has(qso.seq._streams, e) for e in a_ins + a_outs): continue
             ti = {qa_i.li, qsi.li}; to = {qa_o.li, qso.li}
             variants = [((), '')]
-            if full:
+            if not a_ins and a._N_ins == 1 and (qa_i.fixed or not qa_o.fixed):
+                variants = []          # insert would address ins[0] of an empty (variable) list: index out of range
+            if full and a_ins and a_outs:
                 variants += [((0, 0), ',0,0')]
                 for x in a_ins[:1]:
                     for y in a_outs[:1]:
@@ -916,12 +932,23 @@ def emit(w, U, stats, init, big):
             if f is None:
                 w.ensure(f'after {kind}: {c}', True)
             else:
-                w.ensure(f'after {kind}: {c}', False, failures=f[0], executions=stats.n[kind],
-                         first=' ; '.join(f[1]))
+                w.ensure(f'after {kind}: {c}', False, **_failure_info(f, stats.n[kind]))
         extra = [k for k in stats.fail if k[0] == kind and k[1] not in names]
         for k in extra:
             f = stats.fail[k]
-            w.ensure(f'after {kind}: {k[1]}', False, failures=f[0], first=' ; '.join(f[1]))
+            w.ensure(f'after {kind}: {k[1]}', False, **_failure_info(f, stats.n[kind]))
+
+
+def _failure_info(f, executions):
+    """f = [count, trace]; trace = labels of the operations from the constructed initial state, the failing operation,
+    then '=> state after' or the exception (and the from-scratch confirmation)."""
+    t = list(f[1])
+    tail = []
+    while t and (t[-1].startswith(('=> ', '[re-executed')) or ': ' in t[-1] and t[-1].split(':')[0].endswith(('Error', 'Exception'))):
+        tail.insert(0, t.pop())
+    op = t.pop() if t else ''
+    return dict(failures=f[0], executions=executions, failing_operation=op, outcome=' '.join(tail),
+                operations_before=' ; '.join(t[-12:]) + (f' (last 12 of {len(t)})' if len(t) > 12 else ''))
 
 
 # =========================================================================== canaries (vacuity guards, evaluated here because mode B has no solver)
@@ -975,17 +1002,18 @@ THOROUGH_DEPTH = 4
 def exhaustive_configs(tier):
     out = []
     if tier == 'quick':
-        plan = [('bare', QUICK_DEPTH, False, 8), ('line', QUICK_DEPTH, False, 24)]
-        plan += [(init, 2, False, 2) for init in ('steal', 'single', 'default')]
-        plan += [(init, 2, True, 4) for init in ('bare', 'line')]
+        plan = [('bare', QUICK_DEPTH, 'core', 8), ('line', QUICK_DEPTH, 'core', 24)]
+        plan += [(init, 2, 'core', 2) for init in ('steal', 'single', 'default')]
+        plan += [(init, 2, 'full', 4) for init in ('bare', 'line')]
     else:
-        plan = [('bare', THOROUGH_DEPTH, False, 32), ('line', THOROUGH_DEPTH, False, 96)]
-        plan += [(init, 3, False, 32) for init in ('steal', 'single', 'default')]
-        plan += [(init, 2, True, 4) for init in INITS] + [(init, 3, True, 48) for init in ('bare', 'line')]
-    for init, depth, full, chunks in plan:
+        plan = [('bare', THOROUGH_DEPTH, 'mini', 64), ('line', THOROUGH_DEPTH, 'mini', 128)]
+        plan += [('bare', 3, 'core', 8), ('line', 3, 'core', 24), ('steal', 3, 'core', 32), ('single', 3, 'core', 32),
+                 ('default', 3, 'core', 48)]
+        plan += [(init, 2, 'full', 4) for init in INITS] + [('bare', 3, 'full', 32), ('line', 3, 'full', 64)]
+    for init, depth, alphabet, chunks in plan:
         for k in range(chunks):
-            out.append({'name': f'init={init};depth={depth};alphabet={"full" if full else "core"};chunk={k}/{chunks}',
-                        'init': init, 'depth': depth, 'bfs': min(2, depth - 1), 'full': full, 'chunk': k,
+            out.append({'name': f'init={init};depth={depth};alphabet={alphabet};chunk={k}/{chunks}',
+                        'init': init, 'depth': depth, 'bfs': min(2, depth - 1), 'alphabet': alphabet, 'chunk': k,
                         'chunks': chunks})
     # interleave so that neighbouring jobs (pool chunksize) have different costs
     out.sort(key=lambda c: (c['chunk'], c['name']))
@@ -1032,7 +1060,7 @@ def check_construction(w, U):
              'constructed initial wirings; equal object-graph states are expanded once, completely free streams are '
              'interchangeable; WF + local effect + frame evaluated after every operation')
 def exhaustive(w, cfg):
-    init = cfg['init']; depth = cfg['depth']; full = cfg['full']
+    init = cfg['init']; depth = cfg['depth']; full = cfg['alphabet']
     U = Universe(init)
     if not check_construction(w, U):
         return
@@ -1060,7 +1088,7 @@ def _confirm_and_emit(w, U, stats, init, big):
 # =========================================================================== group 2: random
 
 def random_configs(tier):
-    n_cfg, n_seq, length = (16, 60, 50) if tier == 'quick' else (64, 250, 60)
+    n_cfg, n_seq, length = (16, 150, 50) if tier == 'quick' else (64, 600, 60)
     out = []
     inits = sorted(INITS_BIG)
     for k in range(n_cfg):
@@ -1089,7 +1117,15 @@ def random_sequences(w, cfg):
         U.restore(start)
         trace = []
         for t in range(cfg['length']):
-            ops = gen_ops(U, True)
+            for attempt in range(20):
+                r = rng.random()
+                if r < 0.62:
+                    only = ('list', rng.randrange(len(U.seqs)), rng.choice(('set', 'set', 'slice', 'grow', 'shrink', 'shrink')))
+                elif r < 0.72: only = ('stream',)
+                elif r < 0.77: only = ('conn',)
+                else: only = ('unit', rng.randrange(len(U.units)), rng.choice(('pair', 'disc', 'replace', 'insert', 'insert')))
+                ops = gen_ops(U, True, only)
+                if ops: break
             bykind = {}
             for o in ops: bykind.setdefault(o.kind, []).append(o)
             kind = rng.choice(sorted(bykind))
